@@ -110,6 +110,15 @@ class Ev:
         return f"{self.feat}[{self.i}]{t}"
 
 
+class DType(str):
+    """dtype of a model array: compares like its name, has numpy's `kind`
+    (feature values are floating point in the model)"""
+
+    @property
+    def kind(self):
+        return {"bool": "b", "int": "i"}.get(str(self), "f")
+
+
 class Arr:
     """1-d array with the numpy indexing laws relevant for selection"""
 
@@ -139,7 +148,7 @@ class Arr:
 
     @property
     def dtype(self):
-        return self.kind or "object"
+        return DType(self.kind or "object")
 
     def copy(self):
         return Arr(self.v, self.kind)
@@ -1033,9 +1042,22 @@ def snapshot(v):
 # ----------------------------------------------------------------------
 # numpy model
 
-def _np_where(a):
+def _np_where(a, *xy):
     if not isinstance(a, Arr):
         raise MiniError("np.where on a non-array model value")
+    if xy:
+        if len(xy) != 2:
+            raise ModelFault("np.where takes one or three arguments")
+
+        def item(v, i):
+            if isinstance(v, Arr):
+                if len(v) != len(a):
+                    raise ModelFault("operands could not be broadcast "
+                                     "together")
+                return v.v[i]
+            return v
+        return Arr([item(xy[0], i) if c else item(xy[1], i)
+                    for i, c in enumerate(a.v)], "ev")
     return (Arr([i for i, b in enumerate(a.v) if b], "int"),)
 
 
@@ -1110,8 +1132,18 @@ def _np_arange(n):
     return Arr(list(range(n)), "int")
 
 
+def _np_isnan(a):
+    return Arr([isinstance(x, Ev) and x.tag == "nan" for x in a], "bool")
+
+
+def _np_isinf(a):
+    return Arr([isinstance(x, Ev) and x.tag == "inf" for x in a], "bool")
+
+
 def numpy_model(**extra):
-    d = dict(where=_np_where, all=_np_all, any=_np_any, array=_np_array,
+    d = dict(isnan=_np_isnan, isinf=_np_isinf,
+             isfinite=lambda a: ~(_np_isnan(a) | _np_isinf(a)),
+             where=_np_where, all=_np_all, any=_np_any, array=_np_array,
              asarray=_np_array, ones=_np_ones, zeros=_np_zeros, copy=_np_copy,
              arange=_np_arange, min=lambda a: min(list(a)),
              max=lambda a: max(list(a)), flatnonzero=lambda a: _np_where(a)[0],
